@@ -2,7 +2,7 @@
    csc_to_csr_on_disk (Model/Transpose.v) followed by the CSR iterator. *)
 From Coq Require Import List Arith ZArith Lia Bool.
 From CTM Require Import Base.Sx Base.ListX Model.Sparse Model.Transpose
-  Proofs.SparseP Proofs.TransposeP Proofs.TransposeFillP Proofs.TransposeSpecP.
+  Proofs.SparseP Proofs.TransposeP Proofs.TransposeFillP Proofs.TransposeSpecP Proofs.SparseBatchP.
 Import ListNotations.
 
 Lemma strictly_increasing_cons : forall l x,
@@ -114,4 +114,34 @@ Proof.
   destruct (iterate_csr_exact mr nr nc c2 Wr NDr H2) as (b2 & E2 & _ & _ & _ & C2).
   destruct (iterate_csc_exact mc nr nc c3 E L Lc Wc HP HD NDc H3 H4 H5) as (b3 & E3 & _ & _ & _ & C3).
   cbn zeta in C3. exists b1, b2, b3. rewrite Dr in C2. rewrite Dc in C3. tauto.
+Qed.
+
+(* get_batch of AnnDataRowIterator on a CSC matrix: the conversion, then the CSR
+   get_batch - the requested rows of the transposed dense view, in the requested order *)
+Theorem csc_get_batch_exact m rows n_rows n_cols E L Lc :
+  wf_comp m n_rows -> length (ptr m) = S n_cols -> length (dat m) = length (idx m) ->
+  no_dup_minor m -> 1 <= L -> 1 <= Lc ->
+  rows <> [] -> NoDup rows -> Forall (fun r => r < n_rows) rows ->
+  let M := map (fun r => map (fun j => cell m j r) (seq 0 n_cols)) (seq 0 n_rows) in
+  csc_get_batch m rows n_rows n_cols E L Lc = Ok (map (fun r => nth r M []) rows).
+Proof.
+  intros W HP HD ND HL HLc Hne NDr HF. cbn zeta. unfold csc_get_batch.
+  destruct (transpose_full m n_cols true n_rows None E L Lc W HP (fun _ => HD) HL HLc) as (t & EQ & Ht).
+  cbn zeta in Ht. destruct Ht as (EO & _ & _ & _ & _ & _ & _ & _ & Hd).
+  destruct (Hd eq_refl) as (_ & _ & HDense). cbn [n_out_of Nat.add] in HDense.
+  rewrite EQ. cbn [bind].
+  destruct (spec_wf_csr m n_rows n_cols W HP HD ND) as [Wo NDo]. cbn zeta in Wo, NDo. rewrite <- EO in Wo, NDo.
+  rewrite (csr_get_batch_exact (t_out t) n_rows n_cols rows Wo NDo Hne NDr HF). rewrite HDense. reflexivity.
+Qed.
+
+Theorem csc_get_batch_rejects m rows n_rows n_cols E L Lc :
+  wf_comp m n_rows -> length (ptr m) = S n_cols -> length (dat m) = length (idx m) ->
+  1 <= L -> 1 <= Lc ->
+  rows = [] \/ ~ NoDup rows \/ Exists (fun r => n_rows <= r) rows ->
+  exists e, csc_get_batch m rows n_rows n_cols E L Lc = Err e.
+Proof.
+  intros W HP HD HL HLc Hbad. unfold csc_get_batch.
+  destruct (transpose_full m n_cols true n_rows None E L Lc W HP (fun _ => HD) HL HLc) as (t & EQ & Ht).
+  cbn zeta in Ht. destruct Ht as (_ & _ & _ & _ & PL & _). cbn [n_out_of] in PL.
+  rewrite EQ. cbn [bind]. exact (csr_get_batch_rejects (t_out t) n_rows n_cols rows PL Hbad).
 Qed.
